@@ -597,14 +597,24 @@ impl FormatSpec {
     {
         self.validate_format(FormatType::String)?;
         match self.format_type {
-            Some(FormatType::String) | None => self
-                .format_sign_and_align(s, "", FormatAlign::Left)
-                .map(|mut value| {
-                    if let Some(precision) = self.precision {
-                        value.truncate(precision);
+            Some(FormatType::String) | None => {
+                // the precision truncates the value (counted in characters) before it is padded
+                match self.precision {
+                    Some(precision) if precision < s.char_len() => {
+                        let value: &str = s.deref();
+                        let end = value
+                            .char_indices()
+                            .nth(precision)
+                            .map_or(value.len(), |(index, _)| index);
+                        let truncated = TruncatedStr {
+                            inner: &value[..end],
+                            char_len: precision,
+                        };
+                        self.format_sign_and_align(&truncated, "", FormatAlign::Left)
                     }
-                    value
-                }),
+                    _ => self.format_sign_and_align(s, "", FormatAlign::Left),
+                }
+            }
             _ => {
                 let ch = char::from(self.format_type.as_ref().unwrap());
                 Err(FormatSpecError::UnknownFormatCode(ch, "str"))
@@ -665,6 +675,24 @@ impl FormatSpec {
 pub trait CharLen {
     /// Returns the number of characters in the text
     fn char_len(&self) -> usize;
+}
+
+struct TruncatedStr<'a> {
+    inner: &'a str,
+    char_len: usize,
+}
+
+impl CharLen for TruncatedStr<'_> {
+    fn char_len(&self) -> usize {
+        self.char_len
+    }
+}
+
+impl Deref for TruncatedStr<'_> {
+    type Target = str;
+    fn deref(&self) -> &Self::Target {
+        self.inner
+    }
 }
 
 struct AsciiStr<'a> {
